@@ -1,5 +1,9 @@
-import SaoVerif.Generated.Skeleton
-import SaoVerif.Spec.SkeletonExpected
+import SaoVerif.Skeleton.x_node_abci_go
+import SaoVerif.Skeleton.x_node_keeper_msg_server_claim_reward_go
+import SaoVerif.Skeleton.x_node_keeper_msg_server_add_vstorage_go
+import SaoVerif.Skeleton.x_node_keeper_msg_server_remove_vstorage_go
+import SaoVerif.Skeleton.x_node_keeper_shard_pledge_management_go
+import SaoVerif.Skeleton.x_node_keeper_keeper_go
 /-!
 # C08 — the decision logic of the anchor files is the one that was modelled
 
@@ -7,9 +11,10 @@ The extractor (harness/cmd/extract) regenerates, on every run and from the tree 
 function: its branching constructs in source order, each guard with its condition and with how its branch ends (`return <err>`,
 `continue`, `panic`, …). The hand-written model mirrors exactly these decisions (its `…Pre` / `…Guards` functions are the
 guards of the handlers, in their order). This theorem says that for the files the property is anchored in
-(x/node/abci.go, x/node/keeper/msg_server_claim_reward.go, x/node/keeper/msg_server_add_vstorage.go, x/node/keeper/msg_server_remove_vstorage.go, x/node/keeper/shard_pledge_management.go, x/node/keeper/keeper.go) the regenerated skeletons equal the ones the model was written against. A change of a guard, of its
-order, or a new or removed branch breaks it: the correspondence then has to be re-established (the check searches the
-histories for a failing input and reports the violation either way).
+(x/node/abci.go, x/node/keeper/msg_server_claim_reward.go, x/node/keeper/msg_server_add_vstorage.go, x/node/keeper/msg_server_remove_vstorage.go, x/node/keeper/shard_pledge_management.go, x/node/keeper/keeper.go) the regenerated skeletons equal the ones the model was written against
+(one kernel-evaluated equality per source file, `SaoVerif/Skeleton/<file>.lean`). A change of a guard, of its order, or a new or
+removed branch breaks it: the correspondence then has to be re-established (the check searches the histories for a failing
+input and reports the violation either way).
 -/
 namespace SaoVerif
 
@@ -26,6 +31,6 @@ theorem C08_decision_skeleton_as_modelled :
      Expected.Skel.x_node_keeper_msg_server_remove_vstorage_go,
      Expected.Skel.x_node_keeper_shard_pledge_management_go,
      Expected.Skel.x_node_keeper_keeper_go] := by
-  decide +kernel
+  rw [skel_x_node_abci_go, skel_x_node_keeper_msg_server_claim_reward_go, skel_x_node_keeper_msg_server_add_vstorage_go, skel_x_node_keeper_msg_server_remove_vstorage_go, skel_x_node_keeper_shard_pledge_management_go, skel_x_node_keeper_keeper_go]
 
 end SaoVerif
